@@ -95,7 +95,7 @@ int main(int argc, char **argv) {
   FILE *f = fopen(argv[1], "r"); if (!f) return 3;
   char line[1024]; char facts[8192]; int fl = 0;
   while (fgets(line, sizeof line, f)) {
-    char a[64], b[512], c[64], d[64]; unsigned u1, u2, u3;
+    char a[64], b[512]; unsigned u1, u2, u3; unsigned long ul1;
     if (sscanf(line, "thread %63s %u %u %511s", a, &u1, &u2, b) == 4) {
       struct tcfg *t = &T[NT]; t->idx = NT; t->sp_off = u1; t->pages = u2;
       t->kind = !strcmp(a, "spin") ? K_SPIN : !strcmp(a, "nullsp") ? K_NULLSP : !strcmp(a, "exiter") ? K_EXITER : K_BLOCK;
@@ -105,8 +105,22 @@ int main(int argc, char **argv) {
       for (size_t i = 4096; i < (size_t)(u2 + 1) * 4096; i++) m[i] = (unsigned char)(((uintptr_t)(m + i) * 2654435761u) >> 7);
       munmap(m, 4096); munmap(m + (size_t)(u2 + 1) * 4096, 4096);
       /* SP in the LAST page of the stack area, so (pages-1) pages remain below it for signal frames */
-      t->sp = (uint64_t)(m + 4096) + (size_t)(u2 - 1) * 4096 + (u1 & 4095 & ~7u);
+      unsigned off = (u1 & 4095 & ~7u);
+      if (t->kind == K_SPIN && off > 4072) off = 4072;   /* the spinner stores its counter at 8(%rsp) */
+      t->sp = (uint64_t)(m + 4096) + (size_t)(u2 - 1) * 4096 + off;
       fl += snprintf(facts + fl, sizeof facts - fl, " t%d.stack=%lx t%d.sp=%lx", NT, (unsigned long)(m + 4096), NT, (unsigned long)t->sp);
+      NT++;
+    } else if (sscanf(line, "threadat %63s %lx %u %511s", a, &ul1, &u2, b) == 4) {
+      struct tcfg *t = &T[NT]; t->idx = NT; t->sp_off = 0; t->pages = u2;
+      t->kind = !strcmp(a, "spin") ? K_SPIN : K_BLOCK;
+      t->has_name = strcmp(b, "-") != 0; if (t->has_name) unhex(b, t->name, 16);
+      /* pages below the requested SP (for signal frames), one page above it */
+      unsigned char *want = (unsigned char *)((ul1 & ~0xfffUL) - (size_t)u2 * 4096);
+      unsigned char *m = mmap(want, (size_t)(u2 + 2) * 4096, PROT_READ | PROT_WRITE, MAP_PRIVATE | MAP_ANONYMOUS | MAP_FIXED_NOREPLACE, -1, 0);
+      if (m != want) return 5;
+      for (size_t i = 0; i < (size_t)(u2 + 1) * 4096; i++) m[i] = (unsigned char)(((uintptr_t)(m + i) * 2654435761u) >> 7);
+      t->sp = ul1;
+      fl += snprintf(facts + fl, sizeof facts - fl, " t%d.stack=%lx t%d.sp=%lx", NT, (unsigned long)m, NT, (unsigned long)t->sp);
       NT++;
     } else if (sscanf(line, "anon %u %63s %u", &u1, a, &u2) == 3) {
       unsigned char *m = mmap(0, (size_t)(u1 + 1) * 4096, PROT_READ | PROT_WRITE, MAP_PRIVATE | MAP_ANONYMOUS, -1, 0);
